@@ -30,7 +30,7 @@ Lemma run_generic o s gs :
   generic_op o = true ->
   run_op gshape gaxes o [mkT s (TBatch None gs)] = generic_result o s gs.
 Proof.
-  intros H. destruct o as [[|]| | | | | | | | | | | | | | | | | | | | | | | | | | | | | | | ]; try discriminate H;
+  intros H. destruct o as [[|]| | | | | | | | | | | | | | | | | | | | | | | | | | | | | | | | ]; try discriminate H;
     unfold run_op, generic_result;
     cbn [nth t_shape t_kind map choose_disp fold_left disp_of existsb insert_disp hd];
     unfold dispatch_batch; cbn [map to_batch t_kind t_shape];
